@@ -16,6 +16,8 @@ pub struct Out {
     pub nontrivial: BTreeSet<u64>,
     pub seed: u64,
     pub tier: String,
+    /// (schema, output) pairs for a second, external judge (python jsonschema)
+    pub ext_pairs: Vec<(String, String)>,
 }
 
 pub fn hash64(s: &str) -> u64 {
@@ -30,6 +32,7 @@ pub fn hash64(s: &str) -> u64 {
 impl Out {
     pub fn new(dir: &Path, seed: u64, tier: &str) -> Self {
         std::fs::create_dir_all(dir).unwrap();
+        let _ = std::fs::remove_file(dir.join("ext_pairs.jsonl"));
         Out {
             dir: dir.to_path_buf(),
             cases: BufWriter::new(File::create(dir.join("cases.txt")).unwrap()),
@@ -41,6 +44,7 @@ impl Out {
             nontrivial: BTreeSet::new(),
             seed,
             tier: tier.to_string(),
+            ext_pairs: vec![],
         }
     }
     /// one correspondence case: `input` goes to the model driver, `output` is what the implementation did
@@ -73,6 +77,10 @@ impl Out {
         self.count("impl_violations", 1);
     }
     pub fn finish(mut self) {
+        if !self.ext_pairs.is_empty() {
+            let lines: Vec<String> = self.ext_pairs.iter().map(|(s, o)| serde_json::json!({"schema": s, "output": o}).to_string()).collect();
+            std::fs::write(self.dir.join("ext_pairs.jsonl"), lines.join("\n") + "\n").unwrap();
+        }
         self.cases.flush().unwrap();
         self.imp.flush().unwrap();
         let viol: Vec<serde_json::Value> = self
